@@ -759,6 +759,115 @@ def rule_range_fb(ctx, prog, chk, names=("fb_read_bin", "fb_read_str")):
 
 
 # ---------------------------------------------------------------------- entry points
+POINT_ENC = re.compile(r"^(ep\d*|eb|ed)_write_bin$")
+ENC_MAY_TAKE_INPUT = re.compile(r"_(is_infty|norm|size_bin|copy)$")
+
+
+def rule_enc_norm(ctx, prog, chk):
+    """ENC-NORM: a point encoder reads the coordinates it writes from its normalised copy: once the encoder normalises
+    (X_norm(t, a)), the input point itself is only ever handed to X_is_infty / X_norm / X_size_bin / X_copy - a coordinate
+    of `a`, or `a` handed to the compression routine, belongs to a representation (projective, another coordinate
+    system) whose bytes are not the canonical encoding"""
+    n = 0
+    for fn in prog.all:
+        b = fn.name.split("__")[-1]
+        if not POINT_ENC.match(b):
+            continue
+        obj, binv, lenv = codec_params(fn)
+        if obj is None:
+            continue
+        normalises = any(c[1] and c[1].endswith("_norm") and len(c[2]) == 2 and ir.base_var(fn, c[2][1]) == obj for el in fn.all_elements() for c in ir.calls_in(fn, el.e))
+        if not normalises:
+            continue
+        n += 1
+        bad = None
+        for el in fn.all_elements():
+            for sub in ir.walk(fn, el.e):
+                if sub[0] == "c" and sub[1]:
+                    for a in sub[2]:
+                        if ir.base_var(fn, a) == obj and not ENC_MAY_TAKE_INPUT.search(sub[1]):
+                            bad = bad or (el, fn.fmt(sub)[:50])
+                elif sub[0] == "m" and ir.base_var(fn, sub[1]) == obj:
+                    # a->x, a->y ... read directly (outside a call that may take the input)
+                    inside_ok = False
+                    for c in ir.calls_in(fn, el.e):
+                        if c[1] and ENC_MAY_TAKE_INPUT.search(c[1]) and any(sub in list(ir.walk(fn, x)) for x in c[2]):
+                            inside_ok = True
+                    if not inside_ok:
+                        bad = bad or (el, fn.fmt(sub)[:50])
+        if bad is None:
+            chk.ok("ENC-NORM", fn, fn.vars[obj]["n"], "the input point is only normalised, tested for infinity and sized; every coordinate written comes from the normalised copy", line=fn.line)
+        else:
+            chk.fail("ENC-NORM", fn, fn.vars[obj]["n"], "`%s` uses the input point itself although the encoder works on a normalised copy: for a point in projective coordinates "
+                     "the bytes written are not its canonical encoding" % bad[1], line=bad[0].line)
+    return n
+
+
+POINT_DEC = re.compile(r"^(ep\d*|eb|ed)_read_bin$")
+_MUST = {}
+
+
+def must_written(ctx, prog, fn, pos, depth=0, worlds=None):
+    """coordinates of the point parameter number `pos` that the function has assigned at every normal exit"""
+    from . import c13_def
+    k = (id(prog), fn.name, pos)
+    if k in _MUST:
+        return _MUST[k]
+    _MUST[k] = ()          # recursion guard
+    if pos >= len(fn.params):
+        return ()
+    P = fn.params[pos]
+    g = ctx.xcfg(prog, fn)
+
+    def summary(callee, i):
+        cf = prog.get(callee, near=fn)
+        if cf is None or depth >= 2:
+            # leaf routines that assign their whole output unconditionally
+            return c13_def.FIELDS if re.search(r"_(set_infty|copy|norm|neg|dbl|add|sub|rand|curve_get_gen)$", callee) else ()
+        return must_written(ctx, prog, cf, i, depth + 1)
+
+    def gen(node, s, pre):
+        _, ws = c13_def.effects(prog, fn, node.el.e, P, summary)
+        return [("ev", "pdef", f, idx) for f, idx in ws]
+    res = None
+    for follow in (worlds or [None]):
+        F = Facts(prog, g, gen=gen, mark_thrown=True, follow=follow)
+        for p, st in engines.normal_exit_states(F, g):
+            fs = set(f for f in c13_def.FIELDS if c13_def.defined(st, (f, ())))
+            res = fs if res is None else (res & fs)
+    out = tuple(sorted(res or ()))
+    _MUST[k] = out
+    return out
+
+
+def rule_dec_def(ctx, prog, chk, info):
+    """DEC-DEF: a point decoder assigns every coordinate of its output (x, y, z and the coordinate system) on every path
+    to a normal return - itself or through a routine that does so on all of *its* paths.  A coordinate left as the
+    object held it makes what is accepted depend on the history of the object, not on the bytes"""
+    n = 0
+    for fn in prog.all:
+        b = fn.name.split("__")[-1]
+        if not POINT_DEC.match(b):
+            continue
+        obj, binv, lenv = codec_params(fn) or (None, None, None)
+        if obj is None:
+            continue
+        pos = fn.params.index(obj)
+        live = set(sub[2] for f2 in prog.all if f2.rfile == fn.rfile for el in f2.all_elements() for sub in ir.walk(f2, el.e) if sub[0] == "m" and sub[2] in ("x", "y", "z", "coord"))
+        need = {"x", "y", "z", "coord"} & (live | {"x", "y"})
+        # one world per accepted length: the length tests select the branches (compressed / uncompressed / infinity)
+        worlds = [engines.world_follow(fn, ("v", lenv), L) for L in sorted(info.get(fn.name, ()))] or None
+        got = set(must_written(ctx, prog, fn, pos, worlds=worlds))
+        n += 1
+        missing = sorted(need - got)
+        if not missing:
+            chk.ok("DEC-DEF", fn, fn.vars[obj]["n"], "x, y, z and the coordinate system are assigned on every path to a normal return", line=fn.line)
+        else:
+            chk.fail("DEC-DEF", fn, fn.vars[obj]["n"], "a normal return is reachable on which this call has not assigned ->%s of the decoded point (a routine that assigns it only on "
+                     "some of its paths does not count): what is accepted depends on what the object held before" % ", ->".join(missing), line=fn.line)
+    return n
+
+
 def analyse(ctx, prog, chk):
     chk.used_program(prog)
     decs, npoint, info = rule_decoders(ctx, prog, chk)
@@ -766,7 +875,17 @@ def analyse(ctx, prog, chk):
     nla = rule_len_agree(ctx, prog, chk, info, guards)
     nr = rule_range_fp(ctx, prog, chk)
     nr += rule_range_fb(ctx, prog, chk)
-    return {"decoders": len(decs), "point_decoders": npoint, "encoders": len(encs), "len_agree": nla, "range": nr}
+    # integers decoded from text / bytes are in normal form (no leading zero digit, no negative zero): the rule of C01,
+    # applied to the decoders
+    from . import c01
+    dec = lambda fn: bool(re.match(r"^bn_read_(str|bin|raw)$", fn.name.split("__")[-1]))
+    nnf = 0
+    for only in ("raw", "sign"):
+        k, w = c01.rule_nf_kind(ctx, prog, chk, only, only_fn=dec, rule="DEC-NF")
+        nnf += k
+    nen = rule_enc_norm(ctx, prog, chk)
+    ndd = rule_dec_def(ctx, prog, chk, info)
+    return {"decoders": len(decs), "point_decoders": npoint, "encoders": len(encs), "len_agree": nla, "range": nr, "nf": nnf, "enc_norm": nen, "dec_def": ndd}
 
 
 def selfcheck(ctx, prog, chk):
@@ -781,6 +900,9 @@ def run(ctx, chk):
     chk.floor("ENC-LEN", "*_write_bin/_write_str encoders (BASE)", c["encoders"], 22)
     chk.floor("LEN-AGREE", "size/read/write triples (BASE)", c["len_agree"], 15)
     chk.floor("RANGE-FP", "fp_read_bin, fb_read_bin, fb_read_str", c["range"], 3)
+    chk.floor("DEC-DEF", "point decoders", c["dec_def"], 7)
+    chk.floor("ENC-NORM", "point encoders that normalise", c["enc_norm"], 5)
+    chk.floor("DEC-NF", "integer decoders held to the normal form", c["nf"], 3)
     if chk.tier == "thorough":
         for cfg in ("P255", "P381"):
             analyse(ctx, ctx.program(cfg), chk)
